@@ -355,7 +355,7 @@ Proof.
               /\ find_row V (ac_builder ac) = Some row /\ b_field row = f /\ b_mode row = MOnce
               /\ forallb (fun r => stores_into ct slot (fst r)) l = true
               /\ ((exists g, s = SOpt g f V)
-                  \/ (exists flags kinds, s = SLocals flags f V kinds
+                  \/ (exists flags kinds whole, s = SLocals flags f V kinds whole
                         /\ forall r, In r l -> exists g, kind_flag AT kinds (fst r) = Some g /\ mem g flags = true))).
   { intros f l Hv Hc. destruct (R1 f _ Hv) as (slot & V & row & HV & Hrow & Hf & Hst).
     pose proof (forallb_In' _ _ _ (cf_deferred _ _ _ CF) (assoc_In _ _ _ HV)) as Hd.
@@ -369,11 +369,11 @@ Proof.
     pose proof (Hsame s0 _ Hin0 Hc Hc0) as <-.
     exists slot, V, row. repeat split; try assumption.
     destruct s; try discriminate.
-    - apply andb_prop in Hs0 as [Hs0 _]. apply andb_prop in Hs0 as [Hf0 HV0]. apply str_eqb_eq in Hf0, HV0. subst. left. eexists; reflexivity.
-    - apply andb_prop in Hs0 as [Hs0 Hnames]. apply andb_prop in Hs0 as [Hf0 HV0]. apply str_eqb_eq in Hf0, HV0. subst.
-      right. exists flags, kinds. split; [reflexivity|]. intros r Hn.
+    - apply andb_prop in Hs0 as [Hs0 _]. apply andb_prop in Hs0 as [Hs0 _]. apply andb_prop in Hs0 as [Hf0 HV0]. apply str_eqb_eq in Hf0, HV0. subst. left. eexists; reflexivity.
+    - apply andb_prop in Hs0 as [Hs0 _]. apply andb_prop in Hs0 as [Hs0 Hnames]. apply andb_prop in Hs0 as [Hf0 HV0]. apply str_eqb_eq in Hf0, HV0. subst.
+      right. exists flags, kinds, whole. split; [reflexivity|]. intros r Hn.
       pose proof (stored_names_spec ct except slot _ (fst r) Hct Hnames (forallb_In' _ _ _ Hst Hn)) as Hp. cbv beta in Hp.
-      destruct (gov ct (fst r)) as [g|]; [|discriminate]. apply andb_prop in Hp as [Hp1 Hp2]. apply ostr_eqb_eq in Hp1. exists g. auto. }
+      destruct (gov ct (fst r)) as [g|]; [|discriminate]. apply andb_prop in Hp as [Hp _]. apply andb_prop in Hp as [Hp1 Hp2]. apply ostr_eqb_eq in Hp1. exists g. auto. }
   (* building a stored body again *)
   assert (Hrefill : forall f b name V row, assoc name (ac_visits ac) = Some V -> find_row V (ac_builder ac) = Some row -> b_field row = f ->
             (b_mode row = MExtend -> count_of b <> 0) -> b_mode row <> MPush ->
@@ -393,7 +393,7 @@ Proof.
     { unfold one_each. clear -Hst. induction l as [|n l IHl]; [reflexivity|]. cbn [forallb map fst] in *.
       apply andb_prop in Hst as [-> Hst]. exact (IHl Hst). }
     rewrite E1. cbn [negb andb]. rewrite flat_one_each. reflexivity. }
-  destruct s as [|g f V|g f V|g f V|g f V|g f V|g f V mm| |g| | |flags f V kinds].
+  destruct s as [|g f V|g f V|g f V|g f V|g f V|g f V mm| |g| | |flags f V kinds whole].
   - (* SFlags *)
     pose proof (cf_flags _ _ _ CF) as Hf. unfold flags_ok in Hf.
     assert (Htf : t_flags_event ct = true).
@@ -415,7 +415,7 @@ Proof.
       cbn [fold_res].
       rewrite (Hrefill f b name V row HV Hrow Hf Hcnt Hnp Hact) by (rewrite (ag_slots _ _ _ Hag), (Hnot _ eq_refl); reflexivity).
       eexists. split; [reflexivity|]. apply agree_slot; [exact Hag|reflexivity|exact Ev].
-    + destruct (Htable f l Ev eq_refl) as (slot & V0 & row & HV & Hr & Hrow & Hf & Hm & Hst & [[g0 Hs]|(fl & kd & Hs & _)]); [|discriminate].
+    + destruct (Htable f l Ev eq_refl) as (slot & V0 & row & HV & Hr & Hrow & Hf & Hm & Hst & [[g0 Hs]|(fl & kd & wh & Hs & _)]); [|discriminate].
       injection Hs as _ HVV. subst V0. rewrite Hr. cbn [fold_res].
       rewrite (Hretable f l slot V row HV Hrow Hf Hm Hst) by (rewrite (ag_slots _ _ _ Hag), (Hnot _ eq_refl); reflexivity).
       eexists. split; [reflexivity|]. apply agree_slot; [exact Hag|reflexivity|exact Ev].
@@ -430,7 +430,7 @@ Proof.
       cbn [fold_res].
       rewrite (Hrefill f b name V row HV Hrow Hf Hcnt Hnp Hact) by (rewrite (ag_slots _ _ _ Hag), (Hnot _ eq_refl); reflexivity).
       eexists. split; [reflexivity|]. apply agree_slot; [exact Hag|reflexivity|exact Ev].
-    + destruct (Htable f l Ev eq_refl) as (slot & V0 & row & HV & Hr & Hrow & Hf & Hm & Hst & [[g0 Hs]|(fl & kd & Hs & _)]); discriminate.
+    + destruct (Htable f l Ev eq_refl) as (slot & V0 & row & HV & Hr & Hrow & Hf & Hm & Hst & [[g0 Hs]|(fl & kd & wh & Hs & _)]); discriminate.
     + cbn [fold_res]. eexists. split; [reflexivity|].
       apply agree_skip; [exact Hag|..]; cbn [step_comp]; try discriminate. intros f' [= <-]. exact Ev.
   - (* SUnknown *)
@@ -499,7 +499,7 @@ Proof.
   - cbn [run_step fold_res]. eexists. split; [reflexivity|]. apply agree_skip; [exact Hag|..]; cbn [step_comp]; discriminate.
   - cbn [run_step fold_res]. eexists. split; [reflexivity|]. apply agree_skip; [exact Hag|..]; cbn [step_comp]; discriminate.
   - (* SLocals *)
-    apply andb_prop in Hj as [Hj _]. apply andb_prop in Hj as [Hj _]. apply andb_prop in Hj as [Hne Hfl0].
+    apply andb_prop in Hj as [Hj _]. apply andb_prop in Hj as [Hj _]. apply andb_prop in Hj as [Hne Hfl0]. apply andb_prop in Hne as [Hwfl Hne].
     cbn [run_step].
     assert (Hex : existsb (interested (t_interests ct)) flags = true).
     { destruct flags as [|g0 flags0]; [discriminate Hne|]. cbn [forallb] in Hfl0. apply andb_prop in Hfl0 as [Hg0 _].
@@ -507,14 +507,17 @@ Proof.
     rewrite Hex.
     destruct (assoc f (it_slots it)) as [[b|l]|] eqn:Ev.
     + destruct (Hbody f b Ev eq_refl) as (name & V0 & row & g0 & _ & _ & _ & _ & _ & _ & _ & [Hs|Hs]); discriminate.
-    + destruct (Htable f l Ev eq_refl) as (slot & V0 & row & HV & Hr & Hrow & Hf & Hm & Hst & [[g0 Hs]|(fl & kd & Hs & Hk)]); [discriminate|].
-      injection Hs as Hfl1 HVV Hkd1. subst fl V0 kd. rewrite Hr.
+    + destruct (Htable f l Ev eq_refl) as (slot & V0 & row & HV & Hr & Hrow & Hf & Hm & Hst & [[g0 Hs]|(fl & kd & wh & Hs & Hk)]); [discriminate|].
+      injection Hs as Hfl1 HVV Hkd1 Hwh1. subst fl V0 kd wh. rewrite Hr.
       assert (Hkept : filter (fun r : str * Model.row => match kind_flag AT kinds (fst r) with Some g => interested (t_interests ct) g | None => false end) l = l).
       { apply filter_all_true. intros n Hn. destruct (Hk n Hn) as (g0 & -> & Hg0).
         apply interested_full. apply (forallb_In' _ _ _ Hfl0).
         unfold mem in Hg0. apply existsb_exists in Hg0 as (y & Hy & Hyg). apply str_eqb_eq in Hyg. subst y. exact Hy. }
       rewrite Hkept.
-      assert (Hemit : is_nil l || negb (is_nil l) = true) by (destruct l; reflexivity). rewrite Hemit.
+      (* the tree builder is interested in everything: the guard of the statement holds *)
+      assert (Hemit : negb (is_nil l) || forallb (interested (t_interests ct)) whole = true).
+      { apply orb_true_iff. right. exact Hwfl. }
+      rewrite Hemit.
       cbn [fold_res].
       rewrite (Hretable f l slot V row HV Hrow Hf Hm Hst) by (rewrite (ag_slots _ _ _ Hag), (Hnot _ eq_refl); reflexivity).
       eexists. split; [reflexivity|]. apply agree_slot; [exact Hag|reflexivity|exact Ev].
